@@ -17,6 +17,7 @@ import Driver.Thr
 import Driver.Os
 import Driver.Attr
 import Driver.Bounds
+import Driver.Flow
 
 def main (args : List String) : IO UInt32 := do
   let stdin ← IO.getStdin
@@ -40,4 +41,5 @@ def main (args : List String) : IO UInt32 := do
   | ["os"] => Driver.Os.run stdin; return 0
   | ["attr"] => Driver.Attr.run stdin; return 0
   | ["bounds"] => Driver.Bounds.run stdin; return 0
+  | ["flow"] => Driver.Flow.run stdin; return 0
   | _ => IO.eprintln "usage: kdfdrv <stream>"; return 2
